@@ -5,3 +5,4 @@ Definition k_flow_async_request : pfun :=
     SAssign ["req"; "encrypt_offsets"] (PMeth "_create_request/verification_trailer" (PName "self") [(PName "context_id"); (PName "opnum"); (PName "stub_data"); (PName "verification_trailer")]);
     SReturn (PMeth "_send_pdu/encrypt_offsets" (PName "self") [(PName "req"); (PName "Response"); (PName "encrypt_offsets")])
   ] |}.
+Definition k_flow_async_request_defaults : list (string * pexp) := [("verification_trailer", PNone)].
